@@ -88,6 +88,12 @@ Proof.
   destruct (beq_spec k k2) as [->|N]; [discriminate|]. intros H; f_equal; auto.
 Qed.
 
+Lemma assoc_del_same {A} k (m : list (bytes * A)) : assoc k (assoc_del k m) = None.
+Proof.
+  induction m as [|[k' v'] m IH]; cbn; auto.
+  destruct (beq_spec k k') as [->|N]; auto. cbn. destruct (beq_spec k k'); [congruence|auto].
+Qed.
+
 Lemma nodup_assoc_del {A} k (m : list (bytes * A)) : NoDup (map fst m) -> NoDup (map fst (assoc_del k m)).
 Proof.
   induction m as [|[k2 v2] m IH]; cbn; auto. intros H. inversion H as [|? ? Hn Hd]; subst.
